@@ -152,6 +152,12 @@ class PFlow(BaseRoutine):
         logger.debug("Max. algeb mismatch %.10g on %s", gmax, system.dae.y_name[gmax_idx])
 
         mis = max(abs(fmax), abs(gmax))
+
+        # the builtin `max` does not propagate NaN (`max(0, nan)` is 0), which let a NaN residual
+        # pass the convergence test and a NaN solution be reported as converged
+        if np.isnan(fmax) or np.isnan(gmax):
+            mis = np.nan
+
         system.vars_to_models()
 
         return mis
